@@ -81,6 +81,14 @@ def programs(draw):
             spec['rsub'] = draw(st.one_of(st.none(), gen.sub_spec(), gen.sub_spec()))
             if draw(st.integers(0, 5)) == 0:
                 spec['src'] = None
+            if draw(st.integers(0, 3)) == 0:
+                # neither side has anything to say after the request (which may itself need several fragments): the channel is
+                # over as soon as it was opened, on both endpoints
+                spec['rsrc'] = None
+                spec['src'] = None
+                spec['rsub'] = draw(st.one_of(st.none(), gen.sub_spec(), gen.sub_spec()))
+                if fr_req:
+                    spec['req'] = [fr_req * draw(st.integers(1, 3)) + draw(st.integers(0, 9)), draw(st.sampled_from([0, 0, 5]))]
         inter.append(spec)
     single = st.one_of(
         st.just(('start',)), st.just(('start',)),
@@ -100,6 +108,15 @@ def programs(draw):
         st.integers(0, 11).map(lambda i: [('end', i, 'req'), ('tick', 2), ('end', i, 'resp'), ('tick', 2)]),
         st.integers(0, 11).map(lambda i: [('end', i, 'resp'), ('tick', 2), ('end', i, 'req'), ('tick', 2)]),
         st.just([('start',), ('tick', 3), ('regime', 'pumped'), ('tick', 6)]),
+        # cancelled in the turn it was issued in (its request frame, or a part of it, may still be queued)
+        st.sampled_from(['resp', 'resp', 'req']).map(lambda d: [('start',), ('cancel', -1, d), ('tick', 3)]),
+        st.integers(1, 3).map(lambda k: [('start',), ('tick', k), ('cancel', -1, 'resp'), ('tick', 3)]),
+        # a response that has reached the requester's reader when the application cancels: it is dispatched before the
+        # cancellation's own callback runs
+        st.sampled_from(['c', 's']).map(lambda sd: [('regime', 'manual'), ('start',), ('tick', 2), ('deliver', 'c', None),
+                                                   ('deliver', 's', None), ('tick', 2), ('resolve', -1), ('tick', 2),
+                                                   ('deliver', 'c', None), ('deliver', 's', None), ('cancel', -1, 'resp'),
+                                                   ('tick', 3), ('regime', 'pumped'), ('tick', 3)]),
         # (slow link) cancel a few milliseconds into a large element
         st.tuples(st.integers(0, 11), st.integers(1, 6)).map(
             lambda a: [('regime', 'pumped'), ('emit', a[0], 'resp', 1), ('adv', a[1]), ('cancel', a[0], 'resp'), ('adv', 40), ('tick', 3)]),
@@ -178,8 +195,7 @@ def mon_like_new(tr, program):
 
 def prop(program):
     tr = run_program(program)
-    vs = monitors.mon_no_state(tr, PID)
-    vs += mon_like_new(tr, program)
+    vs = []
     # interactions on reused ids must still be delivered correctly (only undisturbed ones are judged by mon_delivery)
     disturbed = set(u for u in tr.scn.started if monitors.tr_stream_interrupted(tr, u))
     sids = {}
@@ -193,12 +209,19 @@ def prop(program):
     # has no way to tell them from the new interaction's frames, so the new interaction is not judged either
     skip = set(disturbed)
     seen_disturbed = set()
+    poisoned = set()
     for u in tr.scn.started:
         key = (tr.scn.st[u]['spec']['side'], tr.scn.st[u]['sid'])
         if key in seen_disturbed:
             skip.add(u)
+            poisoned.add(u)
         if u in disturbed:
             seen_disturbed.add(key)
+    # ... and neither is what it leaves behind: a stale terminal frame of the cancelled life can end the new interaction on
+    # one endpoint only (with the suite's 15-id space an id comes round within a few requests; with 2^30 ids it does not)
+    vs += monitors.mon_no_state(tr, PID, skip_uids=poisoned)
+    if not poisoned:
+        vs += mon_like_new(tr, program)
     vs += monitors.mon_delivery(tr, PID, skip_uids=skip)
     abnormal_channel = any(tr.scn.st[u]['spec']['k'] == 'ch' and u in disturbed for u in tr.scn.started)
     info['nt'] = reused or abnormal_channel
